@@ -192,10 +192,19 @@ def binding(ctx, thorough):
     ctx.go_test("./handshake", run="TestConcurrent$", env={"VERIF_ROUNDS": 40 if thorough else 6}, timeout=1500)
     ctx.go_test("./handshake", run="TestReuse$", env={"VERIF_ATTEMPTS": 40 if thorough else 8}, timeout=1500)
     if thorough:
-        ctx.go_test("./handshake", run="TestConcurrent$", env={"VERIF_ROUNDS": 10}, race=True, timeout=1500,
-                    name="./handshake TestConcurrent$ -race", count_cases=False)
+        rr = ctx.go_test("./handshake", run="TestConcurrent$", env={"VERIF_ROUNDS": 10}, race=True, timeout=1500,
+                         name="./handshake TestConcurrent$ -race", count_cases=False)
+        out = rr.get("_out", "")
+        if "WARNING: DATA RACE" in out:
+            blk = out[out.index("WARNING: DATA RACE"):][:6000]
+            if "any-sync/net/secureservice" in blk:
+                # two connections touching the same handshake state at the same time
+                ctx.violation("data-race:handshake", "the race detector reports concurrent access inside the handshake code "
+                              "while 64 handshakes run on the shared pool", {"test": "TestConcurrent", "seed": ctx.seed, "race": blk[:3000]})
+            else:
+                raise CheckBroken("data race outside the code under test (harness?):\n" + blk[:3000])
     ctx.assume("signatures are unforgeable: the adversary only uses signatures it made itself or recorded on another connection")
-    ctx.assume("the byte stream is the harness pipe: data written before a close stays readable, writes fail once either end is closed")
+    ctx.assume("the byte stream is the harness pipe (TCP-like): data written before a close stays readable, a write to a peer that already closed succeeds, a write fails once the own end is closed or the transport is cut")
     ctx.assume("the remote peer id handed to the handshake is the authenticated transport peer id (TLS layer not modelled)")
 
 
